@@ -10,21 +10,8 @@ Section Fields.
   Variable Sc : schema.
   Variable sc li : fld -> bool.
   Variable cls : inst -> nat.
-  (* no two distinct objects of the population compare equal (identity-compared classes, or value classes with distinct values) *)
-  Hypothesis Hinj : forall a b, cls a = cls b -> a = b.
-  Notation add_relV := (add_relV Sc sc cls).
-  Notation in_field := (in_field cls).
-
-  Lemma in_field_mem e V : in_field e V = mem e V.
-  Proof.
-    unfold Closure.in_field, mem. induction V as [|v V IH]; simpl; [reflexivity|]. rewrite IH. f_equal.
-    unfold edge_eqb. destruct e as [[s f] x], v as [[s' f'] x']; unfold esrc, efld, etgt; simpl.
-    rewrite (Nat.eqb_sym s s'), (Nat.eqb_sym f f').
-    destruct (Nat.eqb s' s); simpl; [|reflexivity]. destruct (Nat.eqb f' f); simpl; [|reflexivity].
-    destruct (Nat.eqb x x') eqn:Hx.
-    - apply Nat.eqb_eq in Hx. subst. apply Nat.eqb_refl.
-    - apply Nat.eqb_neq in Hx. apply Nat.eqb_neq. intros Hc. apply Hx. symmetry. now apply Hinj.
-  Qed.
+  Notation add_relV := (add_relV Sc sc li cls).
+  Notation in_field := (in_field sc li cls).
   Notation add_rel := (add_rel Sc).
 
   (* ---------------- (1) projection ----------------------------------------------------------- *)
@@ -43,7 +30,7 @@ Section Fields.
     induction n as [|n IH]; intros inf e [E V] s' H; simpl in H |- *; [discriminate|].
     destruct (mem e E) eqn:Hm.
     { injection H as <-. reflexivity. }
-    destruct (fold_addV (add_relV n true) (sup_of Sc e) (e :: E, if inf then write_back sc cls e V else V)) as [s1|] eqn:H1; [|discriminate].
+    destruct (fold_addV (add_relV n true) (sup_of Sc e) (e :: E, if inf then write_back sc li cls e V else V)) as [s1|] eqn:H1; [|discriminate].
     apply (fold_graph n true _ (IH true)) in H1. simpl in H1. rewrite H1.
     destruct (fold_addV (add_relV n true) (inv_of Sc e) s1) as [s2|] eqn:H2; [|discriminate].
     apply (fold_graph n true _ (IH true)) in H2. rewrite H2.
@@ -74,10 +61,14 @@ Section Fields.
   Theorem runV_graph n A s : runV Sc sc li cls n A = Some s -> run Sc n A = Some (fst s).
   Proof. unfold runV, run. intros H. apply runV_graph_gen in H. exact H. Qed.
 
-  (* ---------------- (2) container fields = graph --------------------------------------------- *)
+  (* ---------------- (2) container fields = graph ---------------------------------------------
+     [in_field x V] is what "x is in its field" means for the kind of field: the very object for list fields, an object equal
+     to it (Python ==) for set fields, which cannot hold two equal objects. *)
+  Definition cov (x : edge) (V : list edge) : Prop := in_field x V = true.
+
   (* while the direct assertion e0 is being processed it is in the graph but not yet (physically) in its field *)
   Definition inv (e0 : edge) (s : st) : Prop :=
-    forall x, sc (efld x) = false -> (In x (snd s) -> In x (fst s)) /\ (In x (fst s) -> In x (snd s) \/ x = e0).
+    forall x, sc (efld x) = false -> (In x (snd s) -> In x (fst s)) /\ (In x (fst s) -> cov x (snd s) \/ x = e0).
 
   Lemma drop_field_In x s f V : In x (drop_field s f V) <-> In x V /\ ~ (esrc x = s /\ efld x = f).
   Proof.
@@ -89,19 +80,61 @@ Section Fields.
       apply Nat.eqb_eq in Ha, Hb. tauto.
   Qed.
 
-  Lemma write_back_In x e V : sc (efld x) = false ->
-    (In x (write_back sc cls e V) <-> In x V \/ (x = e)).
+  Lemma same_slot_refl e : same_slot_eq cls e e = true.
+  Proof. unfold same_slot_eq. now rewrite !Nat.eqb_refl. Qed.
+
+  (* a witness of coverage lives in the same field as the covered relation *)
+  Lemma cov_witness x V : sc (efld x) = false -> cov x V -> exists v, In v V /\ efld v = efld x /\ same_slot_eq cls x v = true.
   Proof.
-    intros Hx. unfold write_back. rewrite in_field_mem. destruct (sc (efld e)) eqn:He.
-    - assert (Hne : x <> e) by (intros ->; congruence).
-      destruct (mem e V) eqn:Hm.
-      + split; [auto|]. intros [H | H]; [auto | contradiction].
-      + simpl. rewrite drop_field_In. split.
-        * intros [H | [H _]]; [symmetry in H; contradiction | auto].
-        * intros [H | H]; [|contradiction]. right. split; [exact H|]. intros [_ Hf]. congruence.
-    - destruct (mem e V) eqn:Hm.
-      + apply mem_In in Hm. split; [auto|]. intros [H | ->]; auto.
-      + simpl. split; intros [H | H]; auto.
+    intros Hx. unfold cov, Closure.in_field. rewrite Hx. simpl. destruct (li (efld x)).
+    - intros H. apply mem_In in H. exists x. split; [exact H|]. split; [reflexivity | apply same_slot_refl].
+    - intros H. apply existsb_exists in H. destruct H as [v [Hv Hs]]. exists v. split; [exact Hv|]. split; [|exact Hs].
+      unfold same_slot_eq in Hs. apply andb_true_iff in Hs. destruct Hs as [Hs _]. apply andb_true_iff in Hs.
+      destruct Hs as [_ Hs]. now apply Nat.eqb_eq in Hs.
+  Qed.
+
+  Lemma cov_of_witness x V v : sc (efld x) = false -> In v V -> (li (efld x) = true -> v = x) ->
+    same_slot_eq cls x v = true -> cov x V.
+  Proof.
+    intros Hx Hv Hl Hs. unfold cov, Closure.in_field. rewrite Hx. simpl. destruct (li (efld x)) eqn:Hli.
+    - apply mem_In. rewrite <- (Hl eq_refl). exact Hv.
+    - apply existsb_exists. exists v. auto.
+  Qed.
+
+  Lemma cov_incl x V V' : sc (efld x) = false -> (forall v, In v V -> efld v = efld x -> In v V') -> cov x V -> cov x V'.
+  Proof.
+    intros Hx HI H. unfold cov, Closure.in_field in *. rewrite Hx in *. simpl in *. destruct (li (efld x)).
+    - apply mem_In. apply mem_In in H. apply HI; auto.
+    - apply existsb_exists. apply existsb_exists in H. destruct H as [v [Hv Hs]]. exists v. split; [|exact Hs].
+      apply HI; [exact Hv|]. unfold same_slot_eq in Hs. apply andb_true_iff in Hs. destruct Hs as [Hs _].
+      apply andb_true_iff in Hs. destruct Hs as [_ Hs]. now apply Nat.eqb_eq in Hs.
+  Qed.
+
+  Lemma cov_self e V : sc (efld e) = false -> cov e (e :: V).
+  Proof.
+    intros He. unfold cov, Closure.in_field. rewrite He. destruct (li (efld e)); cbn [orb].
+    - apply mem_In. now left.
+    - cbn [existsb]. now rewrite same_slot_refl.
+  Qed.
+
+  Lemma write_back_In x e V : sc (efld x) = false -> In x (write_back sc li cls e V) -> In x V \/ x = e.
+  Proof.
+    intros Hx. unfold write_back. destruct (sc (efld e)) eqn:He.
+    - destruct (in_field e V); [auto|]. simpl. rewrite drop_field_In. intros [H | [H _]]; auto.
+    - destruct (in_field e V); [auto|]. simpl. intros [H | H]; auto.
+  Qed.
+
+  Lemma write_back_cov x e V : sc (efld x) = false -> cov x V \/ x = e -> cov x (write_back sc li cls e V).
+  Proof.
+    intros Hx H. unfold write_back. destruct (sc (efld e)) eqn:He.
+    - destruct H as [H | ->]; [|congruence].
+      destruct (in_field e V); [exact H|].
+      apply (cov_incl x V _ Hx); [|exact H]. intros v Hv Hf. right. apply drop_field_In. split; [exact Hv|].
+      intros [_ Hf']. congruence.
+    - destruct (in_field e V) eqn:Hin.
+      + destruct H as [H | ->]; [exact H | exact Hin].
+      + destruct H as [H | ->]; [|now apply cov_self].
+        apply (cov_incl x V _ Hx); [|exact H]. intros v Hv _. now right.
   Qed.
 
   Lemma fold_inv n e0 es :
@@ -122,15 +155,17 @@ Section Fields.
     { injection H as <-. exact Hi. }
     assert (IH' : forall e s s', add_relV n true e s = Some s' -> inv e0 s -> inv e0 s').
     { intros e1 s1 s1' H1. apply (IH true e1 s1 s1' H1). discriminate. }
-    assert (Hi0 : inv e0 (e :: E, if inf then write_back sc cls e V else V)).
+    assert (Hi0 : inv e0 (e :: E, if inf then write_back sc li cls e V else V)).
     { intros x Hx. destruct (Hi x Hx) as [Ha Hb]. simpl in Ha, Hb |- *. destruct inf.
-      - rewrite (write_back_In x e V Hx). split.
-        + intros [H' | ->]; auto.
-        + intros [<- | H']; [left; now right|]. destruct (Hb H') as [H'' | H'']; auto.
+      - split.
+        + intros H'. destruct (write_back_In x e V Hx H') as [H'' | ->]; auto.
+        + intros [<- | H'].
+          * left. apply write_back_cov; auto.
+          * destruct (Hb H') as [H'' | H'']; [left; apply write_back_cov; auto | now right].
       - split.
         + intros H'. right. auto.
         + intros [<- | H']; [right; apply Hinf; reflexivity | auto]. }
-    destruct (fold_addV (add_relV n true) (sup_of Sc e) (e :: E, if inf then write_back sc cls e V else V)) as [s1|] eqn:H1; [|discriminate].
+    destruct (fold_addV (add_relV n true) (sup_of Sc e) (e :: E, if inf then write_back sc li cls e V else V)) as [s1|] eqn:H1; [|discriminate].
     pose proof (fold_inv n e0 _ IH' _ _ H1 Hi0) as Hi1.
     destruct (fold_addV (add_relV n true) (inv_of Sc e) s1) as [s2|] eqn:H2; [|discriminate].
     pose proof (fold_inv n e0 _ IH' _ _ H2 Hi1) as Hi2.
@@ -141,7 +176,8 @@ Section Fields.
     - injection H as <-. exact Hi2.
   Qed.
 
-  Definition agree (s : st) : Prop := forall x, sc (efld x) = false -> (In x (snd s) <-> In x (fst s)).
+  Definition agree (s : st) : Prop :=
+    forall x, sc (efld x) = false -> (In x (snd s) -> In x (fst s)) /\ (In x (fst s) -> cov x (snd s)).
 
   Lemma assert1_agree n e s s' : assert1 Sc sc li cls n e s = Some s' -> agree s -> agree s'.
   Proof.
@@ -150,7 +186,8 @@ Section Fields.
       { intros x Hx. assert (Hne : x <> e) by (intros ->; congruence).
         destruct (Ha x Hx) as [Ha1 Ha2]. simpl in *. split.
         - intros [H' | H']; [symmetry in H'; contradiction|]. apply drop_field_In in H'. tauto.
-        - intros H'. left. right. apply drop_field_In. split; [auto|]. intros [_ Hf]. congruence. }
+        - intros H'. left. apply (cov_incl x V _ Hx); [|auto]. intros v Hv Hf. right. apply drop_field_In.
+          split; [exact Hv|]. intros [_ Hf']. congruence. }
       pose proof (add_relV_inv n e false e _ _ H (fun _ => eq_refl) Hi) as Hi'.
       intros x Hx. assert (Hne : x <> e) by (intros ->; congruence).
       destruct (Hi' x Hx) as [H1 H2]. split; [exact H1|]. intros H'. destruct (H2 H'); [auto | contradiction].
@@ -161,27 +198,69 @@ Section Fields.
       pose proof (add_relV_graph _ _ _ _ _ H1) as Hg. simpl in Hg.
       destruct (add_rel_post Sc n e E E' Hg) as [_ HeE'].
       injection H as <-. intros x Hx. destruct (Hi' x Hx) as [H2 H3]. simpl in *.
-      assert (HV : forall y, In y (if li (efld e) then e :: V' else if in_field e V' then V' else e :: V') <-> In y V' \/ y = e).
-      { intros y. destruct (li (efld e)).
-        - simpl. split; intros [H' | H']; auto.
-        - rewrite in_field_mem. destruct (mem e V') eqn:Hm.
-          + apply mem_In in Hm. split; [auto|]. intros [H' | ->]; auto.
-          + simpl. split; intros [H' | H']; auto. }
-      rewrite HV. split.
-      + intros [H' | ->]; auto.
-      + intros H'. destruct (H3 H'); auto.
+      set (V'' := if li (efld e) then e :: V' else if in_field e V' then V' else e :: V').
+      assert (HV1 : forall y, In y V'' -> In y V' \/ y = e).
+      { intros y. unfold V''. destruct (li (efld e)); [|destruct (in_field e V')]; simpl; intuition. }
+      assert (HV2 : forall y, In y V' -> In y V'').
+      { intros y Hy. unfold V''. destruct (li (efld e)); [|destruct (in_field e V')]; simpl; auto. }
+      assert (HVe : cov e V'').
+      { unfold V''. destruct (li (efld e)) eqn:Hl.
+        - now apply cov_self.
+        - destruct (in_field e V') eqn:Hin; [exact Hin | now apply cov_self]. }
+      split.
+      + intros H'. destruct (HV1 x H') as [H'' | ->]; auto.
+      + intros H'. destruct (H3 H') as [H'' | ->]; [|exact HVe].
+        apply (cov_incl x V' _ Hx); [|exact H'']. intros v Hv _. now apply HV2.
   Qed.
 
-  Theorem runV_fields n A E V : runV Sc sc li cls n A = Some (E, V) ->
+  Lemma runV_agree n A E V : runV Sc sc li cls n A = Some (E, V) -> agree (E, V).
+  Proof.
+    unfold runV. intros H. revert H.
+    assert (H0 : agree (@nil edge, @nil edge)) by (intros x _; simpl; split; [tauto | intros []]).
+    revert H0. generalize (@nil edge, @nil edge). induction A as [|e A IHA]; intros s0 H0 H; simpl in H.
+    - injection H as <-. exact H0.
+    - destruct (assert1 Sc sc li cls n e s0) as [s1|] eqn:H1; [|discriminate].
+      apply (IHA s1); [|exact H]. apply (assert1_agree _ _ _ _ H1 H0).
+  Qed.
+
+  (* list fields hold exactly the relations of the graph, by identity, whatever compares equal *)
+  Theorem runV_list_fields n A E V : runV Sc sc li cls n A = Some (E, V) ->
+    forall e, sc (efld e) = false -> li (efld e) = true -> (In e V <-> In e E).
+  Proof.
+    intros H e He Hl. destruct (runV_agree n A E V H e He) as [H1 H2]. split; [exact H1|].
+    intros H'. specialize (H2 H'). unfold cov, Closure.in_field in H2. rewrite He, Hl in H2. simpl in H2. now apply mem_In.
+  Qed.
+
+  (* set fields: everything in the field is in the graph, and for every relation of the graph the field holds an element that is
+     ==-equal to its target (a Python set cannot hold more) *)
+  Theorem runV_set_fields n A E V : runV Sc sc li cls n A = Some (E, V) ->
+    forall e, sc (efld e) = false -> li (efld e) = false ->
+      (In e V -> In e E) /\
+      (In e E -> exists v, In v V /\ esrc v = esrc e /\ efld v = efld e /\ cls (etgt v) = cls (etgt e)).
+  Proof.
+    intros H e He Hl. destruct (runV_agree n A E V H e He) as [H1 H2]. split; [exact H1|].
+    intros H'. destruct (cov_witness e V He (H2 H')) as [v [Hv [_ Hs]]]. exists v. split; [exact Hv|].
+    unfold same_slot_eq in Hs. apply andb_true_iff in Hs. destruct Hs as [Hs Hc]. apply andb_true_iff in Hs.
+    destruct Hs as [Ha Hb]. apply Nat.eqb_eq in Ha, Hb, Hc. auto.
+  Qed.
+
+  (* when no two distinct objects compare equal, every container field holds exactly the relations of the graph *)
+  Theorem runV_fields n A E V : (forall a b, cls a = cls b -> a = b) -> runV Sc sc li cls n A = Some (E, V) ->
     forall e, sc (efld e) = false -> (In e V <-> In e E).
   Proof.
-    unfold runV. intros H.
-    assert (Hag : agree (E, V)).
-    { revert H. assert (H0 : agree (@nil edge, @nil edge)) by (intros x _; simpl; tauto).
-      revert H0. generalize (@nil edge, @nil edge). induction A as [|e A IHA]; intros s0 H0 H; simpl in H.
-      - injection H as <-. exact H0.
-      - destruct (assert1 Sc sc li cls n e s0) as [s1|] eqn:H1; [|discriminate].
-        apply (IHA s1); [|exact H]. apply (assert1_agree _ _ _ _ H1 H0). }
-    intros e He. exact (Hag e He).
+    intros Hinj H e He. destruct (li (efld e)) eqn:Hl; [now apply (runV_list_fields n A E V H)|].
+    destruct (runV_set_fields n A E V H e He Hl) as [H1 H2]. split; [exact H1|].
+    intros H'. destruct (H2 H') as [v [Hv [Ha [Hb Hc]]]].
+    assert (v = e); [|now subst].
+    destruct v as [[a b] c], e as [[a' b'] c']. unfold esrc, efld, etgt in *. simpl in *. subst. f_equal. now apply Hinj.
+  Qed.
+
+  (* regression (before the repair of C15-b): the old write-back compared with == in list fields too, so an inferred relation to
+     an object equal to one already in the list was not written into the field *)
+  Lemma old_write_back_skipped_equal_twin e v V : same_slot_eq cls e v = true -> In v V ->
+    write_back_old sc cls e V = V.
+  Proof.
+    intros Hs Hv. unfold write_back_old, in_field_old.
+    assert (H : existsb (same_slot_eq cls e) V = true) by (apply existsb_exists; exists v; auto). now rewrite H.
   Qed.
 End Fields.
